@@ -179,7 +179,7 @@ func runValidate(c *core.Ctx) []core.Obligation {
 		}
 	}
 	emitCheck("json.(encoder).encodeRawMessage", []string{"C05", "C01", "C14"})
-	emitCheck("json.(encoder).encodeJSONMarshaler", []string{"C05", "C01"})
+	emitCheck("json.(encoder).encodeJSONMarshaler", []string{"C05", "C01", "C14"})
 
 	// ---- (iii): decodeRawMessage stores only validated bytes
 	if fn := c.Lookup("json.(decoder).decodeRawMessage"); fn != nil {
@@ -357,16 +357,16 @@ func runValidate(c *core.Ctx) []core.Obligation {
 					if call, ok := st.Val.(*ssa.Call); ok && strings.HasSuffix(calleeName(call.Common()), "ParseFlags).withKind") {
 						if ld, ok := call.Common().Args[0].(*ssa.UnOp); ok {
 							if lfa, ok := ld.X.(*ssa.FieldAddr); ok && fieldAddrID(lfa) == "json.decoder.flags" && sameBase(lfa.X, fa.X) {
-								b.addP([]string{"C05", "C02", "C11"}, core.Discharged, key, c.InstrPos(st), "kind byte update of the same decoder (same buffer)")
+								b.addP([]string{"C05", "C02", "C11", "C14"}, core.Discharged, key, c.InstrPos(st), "kind byte update of the same decoder (same buffer)")
 								continue
 							}
 						}
 					}
 					leaves(st.Val, false, 0)
 					if len(bads) > 0 {
-						b.addP([]string{"C05", "C02", "C11"}, core.Violation, key, c.InstrPos(st), fmt.Sprintf("%s builds a decoder's flags from %s: internal fast-path bits survive onto a buffer they were not computed from, so string scanning skips checks the new bytes need", shortName(fn), strings.Join(bads, ", ")))
+						b.addP([]string{"C05", "C02", "C11", "C14"}, core.Violation, key, c.InstrPos(st), fmt.Sprintf("%s builds a decoder's flags from %s: internal fast-path bits survive onto a buffer they were not computed from, so string scanning skips checks the new bytes need", shortName(fn), strings.Join(bads, ", ")))
 					} else {
-						b.addP([]string{"C05", "C02", "C11"}, core.Discharged, key, c.InstrPos(st), "flags = public flags | internalParseFlags(buffer)")
+						b.addP([]string{"C05", "C02", "C11", "C14"}, core.Discharged, key, c.InstrPos(st), "flags = public flags | internalParseFlags(buffer)")
 					}
 				}
 			}
